@@ -189,6 +189,9 @@ def run(ctx):
 
     for _ in range(ctx.share(ctx.pick(480, 9000))):
         chroms = [("chr%d" % (i + 1), "".join(rng.choice("ACGTN" if rng.random() < 0.3 else "ACGT") for _ in range(rng.randint(1, 40)))) for i in range(rng.randint(1, 3))]
+        if rng.random() < 0.4:
+            # soft-masked stretches: lower-case letters in the reference (the extraction is compared letter for letter, case apart)
+            chroms = [(n_, "".join(ch.lower() if rng.random() < 0.5 else ch for ch in s_)) for n_, s_ in chroms]
         route = rng.choice(["file", "dict"])
         if route == "file" and rng.random() < 0.4:
             # a contig that Genome.from_file ignores ('_' in its name) somewhere before the end of the FASTA: record order != the genome's contig order
@@ -204,6 +207,57 @@ def run(ctx):
         if rng.random() < 0.5:
             ivs.sort(key=lambda t: (order[t[0]], t[1], t[2]))      # otherwise: an unsorted interval table (valid BED)
         ctx.run_case(case_genomic, {"chroms": chroms, "intervals": ivs, "wrap": rng.choice([1, 3, 7, 60]), "route": route})
+
+    # ---- spliced interval sets: transcript sequences from exon entries of an annotation ------------
+    def case_transcripts(c):
+        from bionumpy.sequence.genes import get_transcript_sequences
+        r = random.Random(c["seed"])
+        L = r.randint(30, 200)
+        ref = "".join(r.choice("ACGTN" if r.random() < 0.1 else "ACGT") for _ in range(L))
+        if r.random() < 0.3:
+            ref = "".join(ch.lower() if r.random() < 0.4 else ch for ch in ref)
+        lines, exp = [], []
+        pos = 1
+        # the exon table holds the start and stop columns as the numbers written in the file; the sequence of an exon is reference[start:stop]
+        for ti in range(r.randint(1, 4)):
+            strand = r.choice("+-")
+            ne = r.choice([1, 2, 2, 3, 4])
+            exons = []
+            for _ in range(ne):
+                a = pos + r.randint(0, 5)
+                b = a + r.randint(1, 8)
+                if b > L:
+                    break
+                exons.append((a, b))
+                pos = b + r.randint(0, 3)
+            if not exons:
+                break
+            attrs = 'gene_id "g%d"; transcript_id "t%d";' % (ti, ti)
+            lines.append("chr1\tsrc\tgene\t%d\t%d\t.\t%s\t.\tgene_id \"g%d\";" % (exons[0][0], exons[-1][1], strand, ti))
+            lines.append("chr1\tsrc\ttranscript\t%d\t%d\t.\t%s\t.\t%s" % (exons[0][0], exons[-1][1], strand, attrs))
+            for k, (a, b) in enumerate(exons):
+                lines.append("chr1\tsrc\texon\t%d\t%d\t.\t%s\t.\t%s exon_number \"%d\"; exon_id \"t%d.%d\";" % (a, b, strand, attrs, k + 1, ti, k + 1))
+            fwd = "".join(ref[a:b] for a, b in exons)
+            exp.append(("t%d" % ti, fwd.upper() if strand == "+" else rc_model(fwd), strand, len(exons)))
+        if not exp:
+            return
+        path = ctx.path("ann.gtf")
+        with open(path, "w") as f:
+            f.write("\n".join(lines) + "\n")
+        entries = bnp.open(path).read()
+        reference = bnp.as_encoded_array(ref) if r.random() < 0.5 else bnp.as_encoded_array(ref.upper(), ae.ACGTnEncoding)
+        res = get_transcript_sequences(entries, reference)
+        got = list(zip([str(x) for x in res.name.tolist()], [t.upper() for t in text_rows(res.sequence)]))
+        want = [(n_, s_) for n_, s_, _, _ in exp]
+        multi_minus = any(st == "-" and k >= 2 for _, _, st, k in exp)
+        ctx.check("transcripts", got == want, "get_transcript_sequences/wrong%s" % (":minus-strand-transcript-with-several-exons" if multi_minus and [g for g, w in zip(got, want) if g != w and w in [(n_, s_) for n_, s_, st, k in exp if st == "-" and k >= 2]] else ""),
+                  "get_transcript_sequences gave %r, the spliced (and for '-' reverse-complemented) reference is %r" % (got[:3], want[:3]), {"reference": ref, "annotation": lines, "got": got, "expected": want, "seed": c["seed"]},
+                  (ref, tuple(lines)) if multi_minus else None)
+        ctx.count("transcript_cases")
+
+    for _ in range(ctx.share(ctx.pick(320, 6000))):
+        ctx.run_case(case_transcripts, {"seed": rng.randrange(2 ** 40)})
+    ctx.floor("transcript_cases", ctx.pick(5, 100))
 
     # ---- translation -------------------------------------------------------------------------
     def case_translate(c):
